@@ -100,7 +100,7 @@ def gen_history(r):
     early = None
     if r.random() < 0.55:
         md = abs(r.choice(finite(diffs)))
-        md = r.choice([md, float(np.nextafter(md, np.inf)), float(np.nextafter(md, 0.0)), md * 2, 1e-4, 0.02, 0.0, float("inf")])
+        md = r.choice([md, float(np.nextafter(md, np.inf)), float(np.nextafter(md, 0.0)), md * 2, 1e-4, 0.02, 0.0, 0.0, -0.0, float("inf")])
         early = (r.choice([1, 1, 2, 3, 4]), md)
     minmax = r.choice(["min", "max"])
     return {"max_cycles": mc, "P": P, "fitness_error": fe, "early": early, "minmax": minmax, "gens": gens}
@@ -113,6 +113,15 @@ def run_real(h, instance=None):
     script = [[Agent(position=[1000 * g + i], cost=c, fitness=f) for i, (c, f) in enumerate(zip(cs, fs))] for g, (cs, fs) in enumerate(h["gens"])]
     cfg = BaseOptimizationConfig(population_size=h["P"], max_cycles=h["max_cycles"], fitness_error=h["fitness_error"],
                                  early_stopping=None if h["early"] is None else EarlyStopping(patience=h["early"][0], min_delta=h["early"][1]))
+    # the configuration objects must hold exactly what was passed (a validator that "fills defaults" with `or` rewrites 0 / 0.0; one that clamps or rounds changes the rule)
+    echo = []
+    if cfg.max_cycles != h["max_cycles"] or cfg.population_size != h["P"]: echo.append(f"max_cycles/population_size read back as {cfg.max_cycles}/{cfg.population_size}")
+    fe_ = h["fitness_error"]
+    if not (cfg.fitness_error == fe_ or (fe_ is not None and cfg.fitness_error is not None and math.isnan(fe_) and math.isnan(cfg.fitness_error))) or \
+            (fe_ is not None and cfg.fitness_error is not None and math.copysign(1, fe_) != math.copysign(1, cfg.fitness_error)):
+        echo.append(f"fitness_error={fe_!r} read back as {cfg.fitness_error!r}")
+    if h["early"] is not None and (cfg.early_stopping.patience != h["early"][0] or not (cfg.early_stopping.min_delta == h["early"][1])):
+        echo.append(f"EarlyStopping(patience={h['early'][0]}, min_delta={h['early'][1]!r}) read back as ({cfg.early_stopping.patience}, {cfg.early_stopping.min_delta!r})")
     if instance is None:
         o = Scripted(cfg, script)
     else:
@@ -128,6 +137,7 @@ def run_real(h, instance=None):
             obs = {"steps": o.steps, "error": "ErrValue"}
         except Exception as e:          # any other exception class is a disagreement by construction
             obs = {"steps": o.steps, "error": type(e).__name__}
+    obs["config_echo"] = echo
     return o, obs
 
 
@@ -168,7 +178,7 @@ def meta_hist(m):
 # ---------------------------------------------------------------- independent oracles (property text)
 def oracle_c04(h, obs):
     """problems with the stop rule / shape of the result"""
-    out = []
+    out = [f"the configuration does not hold what was configured: {e_}" for e_ in obs.get("config_echo", [])]
     if obs["error"]:
         if all(len(cs) > 0 for cs, _ in h["gens"]):
             out.append(f"optimize raised {obs['error']} on a populated history")
